@@ -550,6 +550,20 @@ static void exec_c14(const plan_t *p)
             spif_url_del(u2);
             sim_free(canon);
         }
+        if (o->na > 4 && o->a[4] == 1) {
+            /* the components are strings the URL owns: a copy taken now reports the same ones after the original is gone (and, a4 == 1 only in
+               plans generated after seeded round 13, after a fresh URL was built in the storage the original gave back) */
+            spif_url_t c = spif_url_dup(u), filler;
+            if (!c) sim_fail("MISMATCH(constructor)", "spif_url_dup returned NULL");
+            if (wellformed) get_components(u, &got, "before the copy");
+            spif_url_del(u);
+            filler = spif_url_new_from_ptr((spif_charptr_t)"zz://filler:pw@filler.example:99/filler?filler");
+            u = c;
+            get_components(u, &got3, "copy");
+            if (wellformed && !comp_eq(&got3, &got, 0, why, sizeof(why))) sim_fail("MISMATCH(copy)", "a copy of the URL parsed from \"%.60s\", read after the original was deleted: %s", txt, why);
+            if (filler) spif_url_del(filler);
+            probe_hit("copy_outlives_original");
+        }
         tr_printf("url %.60s -> %d%d%d%d%d%d%d port=%s", txt, got.has[0], got.has[1], got.has[2], got.has[3], got.has[4], got.has[5], got.has[6], got.has[U_PORT] ? got.port : "-");
         spif_url_del(u);
         sim_free(txt);
@@ -623,7 +637,7 @@ static void gen_c14(plan_t *p, rng_t *r)
             for (size_t j = pre; j < n; j++) txt[j] = rng_chance(r, 1, 3) ? ":/@?."[rng_below(r, 5)] : rng_chance(r, 1, 8) ? (char)(1 + rng_below(r, 255)) : (char)('a' + rng_below(r, 6));
             txt[n] = 0;
         }
-        o = plan_op(p, 0, "url", 4, (long)paints[rng_below(r, 5)], (long)wf, (long)paints[rng_below(r, 5)], (long)rng_chance(r, 1, 4));     /* a3: construct from a string object */
+        o = plan_op(p, 0, "url", 5, (long)paints[rng_below(r, 5)], (long)wf, (long)paints[rng_below(r, 5)], (long)rng_chance(r, 1, 4), (long)rng_chance(r, 1, 4));     /* a3: construct from a string object; a4: a copy outlives the original */
         op_str(o, txt, n);
     }
 }
